@@ -36,7 +36,7 @@ import nfc.llcp
 import nfc.snep
 
 from vlib import p2p, vsched
-from vlib.engine import HarnessError, Leg, Violation, unexpected
+from vlib.engine import HarnessError, Leg, Violation, unexpected, twin_env
 
 PROPERTY = "C09"
 LEVEL = "exploration"
@@ -1215,3 +1215,8 @@ LEGS = [
              "threads) at every scheduling point within +-40 (quick) / +-150 "
              "(thorough) points of the termination event."),
 ]
+
+# the same search in an interpreter with another string hash seed: what a
+# program gets from iterating a set / dict of names differs between runs
+_byn = dict((lg.name, lg) for lg in LEGS)
+LEGS += [twin_env(_byn['random'], "hash77", {"PYTHONHASHSEED": "77"}, quick=150, thorough=3000)]
